@@ -32,7 +32,11 @@ type Op struct {
 	Fault     int    `json:"fault,omitempty"`    // fail the k-th faultable store call of this op
 	Crash     int    `json:"crash,omitempty"`    // crash before the k-th faultable store call of this op
 	CrashPost bool   `json:"crashPost,omitempty"`
-	Note      string `json:"note,omitempty"`
+	// Abandon: the goroutine executing the op unwinds (a recovered panic) at the
+	// k-th faultable store call, or, with Note "abandon-cb", inside the k-th
+	// call of the update function
+	Abandon int    `json:"abandon,omitempty"`
+	Note    string `json:"note,omitempty"`
 }
 
 // Strings that are not valid UTF-8 (collection names, cursor keys, ids) would be
@@ -228,6 +232,9 @@ func (o *Op) Brief() string {
 	}
 	if o.Crash > 0 {
 		fmt.Fprintf(&sb, " CRASH@%d post=%v", o.Crash, o.CrashPost)
+	}
+	if o.Abandon > 0 {
+		fmt.Fprintf(&sb, " ABANDON@%d %s", o.Abandon, o.Note)
 	}
 	return sb.String()
 }
